@@ -28,6 +28,19 @@
 (*                           sample, the scan stops at (0 = none)          *)
 (*   WQScanIdx(xs, ws, a, A) the 1-based index INTO xs of that element     *)
 (*                           under a stable argsort (0 = none)             *)
+(*   WQSet(xs, ws, a, A)     all sample values satisfying the definition   *)
+(*                                                                         *)
+(* Facts checked exhaustively by TLC on WQuantile.tla (samples <= 4,       *)
+(* values 0..3, weights 0..3, alpha in k/8) that users may rely on:        *)
+(*   - for WTotal(ws) > 0 and 0 <= a <= A: WQFound, IsWQ(.., WQScan(..)),  *)
+(*     and WQScan is the LEAST element of WQSet (the lower quantile);      *)
+(*   - the value does not depend on how argsort orders tied values;        *)
+(*   - WQScan is monotone in a/A and unchanged by ScaleW(ws, k), k >= 1.   *)
+(* Float soundness when comparing with the real code: the float scan       *)
+(* equals WQScan if a = 0, or WTotal(ws) is a power of two, or a/A is on   *)
+(* no cumulative boundary; on a boundary with inexact normalisation the    *)
+(* code may return the next element of positive weight instead - which     *)
+(* still satisfies IsWQ (compare with IsWQ / WQSet there, not WQScan).     *)
 (***************************************************************************)
 EXTENDS Naturals, Integers, Sequences, FiniteSets
 
